@@ -38,6 +38,9 @@ Section NonShear.
   Definition Qf (hdk w t : F) : F := hdk * (w / t).
   Definition Q1_exp (q : F) : F := q / (fexp q - one).
   Definition Q2_exp (q : F) : F := q * q * fexp q / ((fexp q - one) * (fexp q - one)).
+  (** the forms the code uses since the Bose-overflow repair (exp(-Q) cannot overflow) *)
+  Definition Q1_neg (q : F) : F := q * fexp (- q) / (one - fexp (- q)).
+  Definition Q2_neg (q : F) : F := q * q * fexp (- q) / ((one - fexp (- q)) * (one - fexp (- q))).
 
   Record consts := { c_hdk : F;   (* h c / k_B in cm K *)
                      c_h : F;     (* h c in Ry cm *)
